@@ -101,7 +101,7 @@ func runModelCheck(r *simrt.Run, id string, o GenOpts) Outcome {
 	}
 	derived := 0
 	for k := range want {
-		if strings.HasPrefix(k, "p") {
+		if strings.HasPrefix(k, "p") || strings.HasPrefix(k, "g") {
 			derived++
 		}
 	}
@@ -235,7 +235,7 @@ func runC20(r *simrt.Run, tier Tier) Outcome {
 	}
 	derived := 0
 	for k := range semiFacts {
-		if strings.HasPrefix(k, "p") {
+		if strings.HasPrefix(k, "p") || strings.HasPrefix(k, "g") {
 			derived++
 		}
 	}
